@@ -8,7 +8,7 @@ MANIFEST = {
              "length, by induction): every bank's total asset/liability shares are >= the sum of the shares recorded in all positions; "
              "every operation other than withdraw_all / repay_all / close_balance changes each bank's totals by EXACTLY the change of "
              "the positions (excess unchanged for every bank); the three closing operations add to the excess only the abandoned shares, "
-             "each side worth < 0.0001 native unit; zero totals imply no position holds shares. Tied to the real code twice: the "
+             "each side worth < 0.0001 native unit; zero totals imply no position holds shares; the same invariant is proved at instruction level for the handler model (incl. liquidation's four legs over two banks and two accounts, bankruptcy) for histories of any length. Tied to the real code twice: the "
              "wrapper-level world (real Bank + BankAccountWrapper) and the handler-level world (real instruction handlers incl. "
              "liquidation's four legs and bankruptcy, sim runtime) are executed against the extracted model, and the oracle recomputes "
              "per-instruction delta equality and the counted dust budget from the real account bytes in exact integers."),
@@ -16,7 +16,7 @@ MANIFEST = {
     "technique": "Coq proof (invariant by induction over operation sequences, exact per-operation deltas) + model/implementation correspondence at wrapper and handler level",
 }
 THEOREMS = ["C02_totals_cover_positions", "C02_ledger_meaning", "C02_exact_deltas_and_dust", "C02_zero_totals_no_positions",
-            "C02_initial_world"]
+            "C02_initial_world", "C02_instruction_level"]
 RULE = ("level B: operation sequences over 1-3 banks and 1-4 accounts on the real Bank + BankAccountWrapper (deposit/withdraw/"
         "borrow/repay/withdraw_all/repay_all/close/liquidation legs/accrue/socialise/claim/settle/sort); level C: instruction-handler "
         "sequences (deposit, withdraw(all), borrow, repay(all), close_balance, liquidate, bankruptcy, accrue, collect fees) by several "
